@@ -163,7 +163,7 @@ Dispatch(m, svc, segs, data, cap, choice, kind, viaUcs, routeSegs) ==
         \* get_module_info(slot): an Unconnected Send along the configured route with its last hop replaced by backplane/slot
         IF m.call.api = "get_module_info" /\ Has(m.call.intent, "slot")
            /\ (~viaUcs \/ ~SegsEq(routeSegs, (IF m.route = <<>> THEN <<>> ELSE SubSeq(m.route, 1, Len(m.route) - 1)) \o <<Port(1, <<m.call.intent.slot>>)>>))
-        THEN ObjR("C16:module-route+C15:module-route+C09:route-meaning", <<>>, m)
+        THEN ObjR("C16:module-route+C14:module-route+C15:module-route+C09:route-meaning", <<>>, m)
         ELSE ObjR("", MRReply(svc, 0, <<>>, IdentityCore(m.ident)), [m1 EXCEPT !.last = [k |-> "identity"]])
     ELSE IF cls = 139 /\ inst = 1 /\ svc = 3 /\ m.hasclock THEN
         ObjR("", MRReply(svc, 0, <<>>, LE(1, 2) \o LE(11, 2) \o LE(0, 2) \o m.clock), [m1 EXCEPT !.last = [k |-> "clock"]])
@@ -329,9 +329,9 @@ RetStep(m, ev) ==
         ELSE IF m.last.k # "script" THEN Good(m)
         ELSE IF m.last.status = 6 /\ it.service \in {3, 10, 82, 83, 85} THEN Good(m)     \* partial transfer on a service that may continue: unspecified here
         ELSE IF m.last.status # 0 THEN
-             (IF TagTruthy(tg[1]) THEN Bad(m, "C13:success-on-error")
-              ELSE IF ~IsS(tg[1].error) \/ Len(tg[1].error.s) = 0 THEN Bad(m, "C13:empty-error")
-              ELSE IF ~NamesStatusT(m.texts, tg[1].error, m.last.status) THEN Bad(m, "C13:status-not-named")
+             (IF TagTruthy(tg[1]) THEN Bad(m, "C13:success-on-error+C14:refused-truthy")
+              ELSE IF ~IsS(tg[1].error) \/ Len(tg[1].error.s) = 0 THEN Bad(m, "C13:empty-error+C14:status-text")
+              ELSE IF ~NamesStatusT(m.texts, tg[1].error, m.last.status) THEN Bad(m, "C13:status-not-named+C14:status-text")
               ELSE Good(m))
         ELSE IF Has(it, "dtype")
              THEN LET d == Dec(it.dtype, m.last.data) IN
@@ -380,9 +380,15 @@ Step(m, ev) ==
            Good([m EXCEPT !.call = [api |-> ev.api, intent |-> ev.intent], !.nIntent = 0, !.last = [k |-> "none"], !.ntx = 0, !.corrupted = FALSE,
                           !.slcPre = m.slc, !.slcIdx = 0,
                           !.inClose = ev.api \in {"close", "exit"}, !.closeFault = FALSE,
-                          !.policy = IF ev.api = "_env" THEN ev.intent.policy ELSE @,         \* the target's admission policy changes
+                          !.policy = IF ev.api = "_env" /\ Has(ev.intent, "policy") THEN ev.intent.policy ELSE @,   \* the target's admission policy changes
+                          !.ident = IF ev.api = "_env" /\ Has(ev.intent, "identity") THEN ev.intent.identity ELSE @,  \* the device was exchanged
                           !.lx = LxCall(m.lx, ev)])
       [] ev.k = "socknew" -> Good(m)
+      [] ev.k = "mutated" ->                               \* a result returned earlier was changed by a later call
+           Bad(m, CASE ev.api \in {"_list_identity", "get_module_info", "get_plc_info"} -> "C16:result-mutated"
+                    [] ev.api = "read" -> "C01:result-mutated"
+                    [] ev.api = "write" -> "C02:result-mutated"
+                    [] OTHER -> "C14:result-mutated")
       [] ev.k = "connect" -> IF m.host # <<>> /\ ev.host # MkS(m.host) THEN Bad(m, "C15:host")
                              ELSE IF m.port # 0 /\ ev.port # m.port THEN Bad(m, "C15:port")
                              ELSE Good(m)
